@@ -78,7 +78,11 @@ func genC15(seed uint64, idx int, tier string) interface{} {
 	sr := r.Fork(3)
 	n := len(pl.Input)
 	pl.Schedules = append(pl.Schedules, ReadPlan{}, ReadPlan{EOFWithData: true})
-	for i := 0; i < 5; i++ {
+	nsched := 5
+	if tier == "thorough" {
+		nsched = 9
+	}
+	for i := 0; i < nsched; i++ {
 		pl.Schedules = append(pl.Schedules, genChunks(sr, n))
 	}
 	// splits clustered at syntactically interesting offsets
